@@ -313,6 +313,13 @@ def build_templates():
     TT["np.linspace"] = T(lambda A, p: np.linspace(A["x"], A["y"], 3), ("x", "y"), cat="func")
     TT["np.histogram"] = T(lambda A, p: np.histogram(A["x"], bins=2), ("x",), cat="func")
     TT["np.percentile"] = T(lambda A, p: np.percentile(A["x"], 50), ("x",), cat="func")
+    # range= limits: one a quantity, the other a bare number (the handler lets bare numbers through for
+    # backward compatibility), and both quantities
+    TT["np.histogram_range_qn"] = T(lambda A, p: np.histogram(A["x"], bins=2, range=(A["y"], 50.0)), ("x", "y"), cat="func")
+    TT["np.histogram_range_nq"] = T(lambda A, p: np.histogram(A["x"], bins=2, range=(-50.0, A["y"])), ("x", "y"), cat="func")
+    TT["np.histogram_range_qq"] = T(lambda A, p: np.histogram(A["x"], bins=2, range=(A["y"], A["y"] + A["y"])), ("x", "y"), cat="func")
+    TT["np.histogram_bins_arr"] = T(lambda A, p: np.histogram(A["x"], bins=A["y"]), ("x", "y"), cat="func")
+    TT["np.histogram_bin_edges_range"] = T(lambda A, p: np.histogram_bin_edges(A["x"], bins=2, range=(A["y"], 50.0)), ("x", "y"), cat="func")
     TT["np.pad"] = T(lambda A, p: np.pad(A["x"], 1), ("x",), cat="func")
     TT["np.tile"] = T(lambda A, p: np.tile(A["x"], 2), ("x",), cat="func")
     TT["ustack"] = T(lambda A, p: unyt.ustack([A["x"], A["y"]]), ("x", "y"), cat="func")
@@ -691,7 +698,7 @@ class Gen18:
                 if r.random() < 0.25:
                     s["dtype"] = r.choice(self.cfg["dtypes"])
             spec[role] = s
-        if name == "np.fill_diagonal":
+        if name == "np.fill_diagonal" or name.startswith("np.histogram_range") or name == "np.histogram_bin_edges_range":
             spec["y"]["shape"] = ()
             spec["y"]["q"] = True
         # --- apply the fault
@@ -974,7 +981,11 @@ class Sim18:
                 self.oracle_c(op, t, twin, copies, p, tgt_ent, before["ents"][tgt_idx])
         # ---------------- result of a copying call, then an in-place call on that result
         if not raised and not self.violations and (op["t"] in COPYING_RESULT or t.cat in ("op", "ufunc", "ufunc_red", "cmp")
-                                                   or op["t"] in ("u_mul_arr", "u_rmul_scalar", "u_rdiv_scalar")):
+                                                   or op["t"] in ("u_mul_arr", "u_rmul_scalar", "u_rdiv_scalar", "np.histogram", "np.histogram_bins_arr",
+                                                                "np.histogram_range_qq", "uconcatenate", "ustack", "np.concatenate",
+                                                                "np.stack", "np.vstack", "np.hstack", "np.where", "np.clip",
+                                                                "np.insert", "np.append", "np.pad", "np.tile", "np.sort",
+                                                                "np.cumsum", "np.diff", "np.around", "np.take")):
             self.result_then_inplace(op, t, res, after)
         return out
 
